@@ -59,6 +59,7 @@ class Sink(object):
         self.records.append({
             "seq": self.next_seq(), "kind": "cb", "env": tag, "obs": observer,
             "cls": type(event).__name__, "slot": expected_cls, "time": event.time, "id": self.event_id(event),
+            "tag": (float(event.tag) if isinstance(getattr(event, "tag", None), (int, float, np.integer, np.floating)) else None),
             "env_now": env.now() if env is not None else None, "clock": AbstractContract.now,
         })
 
@@ -101,6 +102,8 @@ class _RecStateBase(IState):
             v = list(event.data.values())
             if v:
                 self._vals[0] = float(v[0])
+        elif hasattr(event, "tag") and isinstance(getattr(event, "tag"), (int, float, np.integer, np.floating)):
+            self._vals[-1] = float(event.tag)       # custom events carry information into the observation
 
     def parse(self):
         own = [float(self._count)] + list(self._vals)
@@ -244,6 +247,8 @@ class EnvHandle(object):
         self.contracts = [world.build_contract(s) for s in spec["contracts"]]
         self.events = []
         for es in spec["events"]:
+            if es.get("via_frame"):
+                continue        # loaded from a table below
             ev = build_event(es, self.contracts, ev_type)
             sink.idmap[id(ev)] = es["id"]
             self.events.append(ev)
@@ -255,6 +260,7 @@ class EnvHandle(object):
         warm = timedelta(seconds=spec["warmup_s"]) if spec.get("warmup_s") is not None else None
         self.transmitter = Transmitter([grid[i] for i in order], folds, bool(spec.get("markov", False)), warm)
         self.transmitter.add_events(self.events)
+        self._load_frames(spec, ev_type)
         self.space, self.space_contracts = build_space(spec["space"], self.contracts)
         st = spec.get("state", {"type": "rec"})
         if st["type"] == "rec":
@@ -273,6 +279,28 @@ class EnvHandle(object):
         )
         sink.envs[tag] = self.env
         self.episodes = []
+
+    def _load_frames(self, spec, ev_type):
+        """Rows flagged via_frame go through Transmitter.add_custom_events (index = time the row becomes
+        known, plus a 'time' column the delivery must ignore), after the other events, class by class
+        (epimodel.Delivery ranks insertion order the same way)."""
+        rows = [es for es in spec["events"] if es.get("via_frame")]
+        if not rows:
+            return
+        for cls in ("EvA", "EvB", "EvC"):
+            part = [es for es in rows if es["cls"] == cls]
+            if not part:
+                continue
+            df = pd.DataFrame({"tag": [es.get("tag", 0) for es in part], "time": [pd.Timestamp(core.parse_t(es["ref_t"])) for es in part]},
+                              index=pd.DatetimeIndex([core.parse_t(es["t"]) for es in part]))
+            n0 = len(self.transmitter.events)
+            self.transmitter.add_custom_events(df, world.CUSTOM_EVENTS[cls])
+            made = self.transmitter.events[n0:]
+            if len(made) != len(part):
+                raise core.HarnessError("add_custom_events created {} events from {} rows".format(len(made), len(part)))
+            for ev, es in zip(made, part):
+                self.sink.idmap[id(ev)] = es["id"]
+                self.events.append(ev)
 
     # .. snapshots .........................................................
     def all_contracts(self):
